@@ -52,12 +52,31 @@ func Mv(r *Root, src, dst string) error {
 		return err
 	}
 
+	// A directory cannot be moved into itself or one of its descendants:
+	// the entry would be added below the source, which is unlinked next.
+	insideSrc := func(d *Directory) bool {
+		srcObjDir, ok := srcObj.(*Directory)
+		for ok && d != nil {
+			if d == srcObjDir {
+				return true
+			}
+			d, _ = d.parent.(*Directory)
+		}
+		return false
+	}
+	if insideSrc(dstDir) {
+		return fmt.Errorf("cannot move %s into itself or one of its subdirectories: %s", src, dst)
+	}
+
 	fsn, err := dstDir.Child(dstFname)
 	if err == nil {
 		switch n := fsn.(type) {
 		case *File:
 			_ = dstDir.Unlink(dstFname)
 		case *Directory:
+			if insideSrc(n) {
+				return fmt.Errorf("cannot move %s into itself or one of its subdirectories: %s", src, dst)
+			}
 			dstDir = n
 			dstFname = srcFname
 		default:
